@@ -247,6 +247,12 @@ def cases():
             "class PB { public constructor() -> PB { return this; } protected constructor(int a) -> PB { return this; } }\nclass PD extends PB { public constructor() -> PD { super(1); return this; } }"),
            ("no-parameterless-base-constructor-implicit-super", "class PB { public constructor(int a) -> PB { return this; } }\nclass PD extends PB { public constructor() -> PD { return this; } }",
             "class PB { public constructor(int a) -> PB { return this; } }\nclass PD extends PB { public constructor() -> PD { super(1); return this; } }"),
+           ("private-base-constructor-implicit-super-defaulted", "class PB { private constructor() -> PB { return this; } public constructor(int a) -> PB { return this; } }\nclass PD extends PB { public constructor() -> PD = default; }",
+            "class PB { protected constructor() -> PB { return this; } public constructor(int a) -> PB { return this; } }\nclass PD extends PB { public constructor() -> PD = default; }"),
+           ("private-base-constructor-implicit-super-defaulted-with-params", "class PB { private constructor() -> PB { return this; } public constructor(int a) -> PB { return this; } }\nclass PD extends PB { public int w; public constructor(int w) -> PD = default; }",
+            "class PB { public constructor() -> PB { return this; } private constructor(int a) -> PB { return this; } }\nclass PD extends PB { public int w; public constructor(int w) -> PD = default; }"),
+           ("no-parameterless-base-constructor-implicit-super-defaulted", "class PB { public constructor(int a) -> PB { return this; } }\nclass PD extends PB { public constructor() -> PD = default; }",
+            "class PB { public constructor(int a) -> PB { return this; } public constructor() -> PB { return this; } }\nclass PD extends PB { public constructor() -> PD = default; }"),
            ("protected-constructor-from-outside", "class PP { protected constructor() -> PP = default; }\nfunction mk() -> void { PP p = new PP(); }",
             "class PP { protected constructor() -> PP = default; }\nclass PQ extends PP { public constructor() -> PQ { super(); return this; } }\nfunction mk() -> void { PQ p = new PQ(); }"),
            ("unrelated-class-with-colliding-name-concatenation",
